@@ -10,9 +10,11 @@ import (
 	corev1 "k8s.io/api/core/v1"
 	corev1listers "k8s.io/client-go/listers/core/v1"
 	"k8s.io/client-go/tools/cache"
+	compbasemetrics "k8s.io/component-base/metrics"
 	"k8s.io/pod-security-admission/admission"
 	admissionapi "k8s.io/pod-security-admission/admission/api"
 	"k8s.io/pod-security-admission/api"
+	"k8s.io/pod-security-admission/metrics"
 )
 
 // runC14InformerCache: the repository's informer-backed PodLister and lister-backed NamespaceGetter hand the controller the
@@ -52,10 +54,13 @@ func runC14InformerCache(c *Ctx) {
 		}
 		nsSnap := nsObj.DeepCopy()
 		mk := func(lister admission.PodLister) *admission.Admission {
+			// the recorder a deployed webhook has (Setup wires exactly this one): evaluations from several goroutines go through it
+			rec := metrics.NewPrometheusRecorder(api.MajorMinorVersion(1, 30))
+			rec.MustRegister(compbasemetrics.NewKubeRegistry().MustRegister)
 			adm := &admission.Admission{
 				Configuration: &admissionapi.PodSecurityConfiguration{Defaults: admissionapi.PodSecurityDefaults{Enforce: "privileged", EnforceVersion: "latest", Audit: "privileged", AuditVersion: "latest", Warn: "privileged", WarnVersion: "latest"},
 					Exemptions: admissionapi.PodSecurityExemptions{RuntimeClasses: []string{"exrc"}}},
-				Evaluator: realEvaluator, Metrics: &recorder{}, PodSpecExtractor: admission.DefaultPodSpecExtractor{},
+				Evaluator: realEvaluator, Metrics: rec, PodSpecExtractor: admission.DefaultPodSpecExtractor{},
 				NamespaceGetter: admission.NamespaceGetterFromListerAndClient(corev1listers.NewNamespaceLister(nsIndexer), nil), PodLister: lister}
 			if err := adm.CompleteConfiguration(); err != nil {
 				panic(err)
@@ -79,8 +84,11 @@ func runC14InformerCache(c *Ctx) {
 					Obj: ObjSpec{Kind: "namespace", NSName: "team", Labels: labels}, Old: ObjSpec{Kind: "namespace", NSName: "team", Labels: map[string]string{}}})
 			}
 		}
-		// a pod request in the cached namespace reads the cached namespace object
-		reqs = append(reqs, &AdmitCase{Res: "pods", Op: admissionv1.Create, Name: "new", NS: "team", User: "u", ExpireAfter: -1, Obj: ObjSpec{Kind: "pod", Pod: genPod(r.Fork(), 7).Pod}})
+		// pod requests in the cached namespace read the cached namespace object (its labels: enforce privileged, warn baseline)
+		for k := 0; k < 6; k++ {
+			reqs = append(reqs, &AdmitCase{Res: "pods", Op: []admissionv1.Operation{admissionv1.Create, admissionv1.Update}[k%2], Name: fmt.Sprintf("new-%d", k), NS: "team", User: "u", ExpireAfter: -1,
+				Obj: ObjSpec{Kind: "pod", Pod: genPod(r.Fork(), 7+k).Pod}, Old: ObjSpec{Kind: "pod", Pod: &corev1.Pod{Spec: corev1.PodSpec{Containers: []corev1.Container{{Name: "x", Image: "old"}}}}}})
+		}
 		want := make([]*admissionv1.AdmissionResponse, len(reqs))
 		for i, a := range reqs {
 			want[i] = ref.Validate(context.Background(), a.attributes()).DeepCopy()
